@@ -225,7 +225,8 @@ VARIANTS = [
       ("        types = [T.Name, T.Wildcard, T.String.Symbol]\n\n        if keywords:\n            types.append(T.Keyword)", "class TokenList(Token):\n"),
       ("        types = self._NAME_TYPES\n\n        if keywords:\n            types += [T.Keyword]", "class TokenList(Token):\n    _NAME_TYPES = [T.Name, T.Wildcard, T.String.Symbol]\n")),
     V('c20-class-list-added', 'C20', 'ok', '', S, "class TokenList(Token):\n", "class TokenList(Token):\n    _NAME_TYPES2 = [T.Name, T.Wildcard]\n"),
-    V('c09-shared-open-stack', 'C09', 'ok', '', G, "    opens = []\n    tidx_offset = 0\n    for idx, token in enumerate(list(tlist)):", "    tidx_offset = 0\n    opens = []\n    for idx, token in enumerate(list(tlist)):"),
+    V('c09-ok-stack-init-order', 'C09', 'ok', '', G, "    opens = []\n    tidx_offset = 0\n    # The opening", "    tidx_offset = 0\n    opens = []\n    # The opening"),
+    V('c09-matcher-scans-delimiters', 'C09', 'bad', 'R9.1', G, "        if token in delimiters:\n            continue\n\n        if token.is_group and not isinstance(token, cls):", "        if token.is_group and not isinstance(token, cls):"),
     V('c07-none-into-token-index', 'C07', 'bad', 'R7.3', FR, "                            if comma is None:\n                                continue\n                            token = comma", "                            token = comma"),
     V('c07-validation-accepts-float-width', 'C07', 'bad', 'R7.2', FM, "    try:\n        indent_width = int(indent_width)\n    except (TypeError, ValueError):\n        raise SQLParseError('indent_width requires an integer')\n    if indent_width < 1:", "    if indent_width < 1:"),
     V('c06-reindent-without-strip', 'C06', 'bad', 'R6.3', FM, "    if options.get('strip_whitespace') or options.get('reindent'):", "    if options.get('strip_whitespace'):"),
